@@ -5,9 +5,10 @@
 From Coq Require Import List Arith Bool.
 Import ListNotations.
 From Coq Require Import QArith Qcanon.
-From SV Require Import Base.Ops Base.Arr Model.Vec3 Model.Scene Model.Visibility
+From SV Require Import Base.Ops Base.Arr Model.Vec3 Model.Scene Model.Visibility Model.Tiling Model.Full
   Spec.VisibilitySpec Proofs.VisibilityScan Proofs.VisibilitySym Proofs.VisibilitySegment
   Proofs.PipRect Proofs.PipRectSurface Proofs.PipGeneral Proofs.PipTriangle
+  Proofs.TilingProofs Proofs.FullProofs Proofs.FullVisibility
   Instances.VisibilityQc Instances.PipRectQc.
 Close Scope Qc_scope.
 Close Scope Q_scope.
@@ -308,3 +309,131 @@ Theorem C07_pip_correct_triangle {T} {O : Ops T} {RL : RingLaws T} {OL : OrderLa
     ([P0; P1; P2], axis_normal ax up) p.
 Proof. exact (pip_correct_triangle eps eta dl P0 P1 P2 p ax up). Qed.
 Print Assumptions C07_pip_correct_triangle.
+
+(** (10) C07_room_visibility_geometric -- the COMPOSED model (Model/Full.v: polygons -> tiling ->
+    patch visibility -> ... -> receiver curve).  Vocabulary (Proofs/FullVisibility.v), for an
+    axis-aligned rectangle [r], its surface s = [rect_surface r] and two points p, q:
+
+    [pt_off eps eta r x]: |side_of s x| > eps and > eta (x is off the plane of r);
+    [pt_on m r x]: x lies in the plane of r ([on_plane]) farther than m from its four edge lines;
+    [gen_pos eps eta m r p q] (general position of the pair with respect to r), one of:
+      p, q both [pt_off] and every point of the line pq in the plane of r is [off_bands m r];
+      p [pt_on], q [pt_off];   p [pt_off], q [pt_on];   p, q both [pt_on];
+    [blocked r p q] (r hides q from p; exact geometry, no tolerance occurs), one of:
+      (i)   neither p nor q in the plane and the OPEN segment pq meets the OPEN rectangle ([seg_meets]);
+      (ii)  p in the plane and in the rectangle, q off the plane and behind the one-sided surface:
+            dot(n, q - p) < 0;
+      (iii) the same with p and q exchanged;
+      (iv)  p and q both in the plane and one of them in the rectangle (coplanar).
+
+    (10a) one rectangle: in general position the four-way branch of [_basic_visibility] returns False
+    exactly when the rectangle blocks.  This covers, besides (6a)-(6c), the two configurations that
+    occur for every other patch of the same wall: an end point in the plane of r but OUTSIDE r, with the
+    other end off the plane or in it -- never hidden.  Needs 0 < eta (with eta = 0 the coplanar test
+    |.| < eta of the code can never succeed). *)
+Theorem C07_blocked_iff_rect {T} {O : Ops T} {RL : RingLaws T} {OL : OrderLaws T} {FL : FieldLaws T}
+    {SL : SqrtLaws T} (eps eta m : T) (r : rect) (p q : @vec T) :
+  (0 <= eps)%T -> (eps < 1)%T -> (0 < eta)%T -> (eta <= m + m)%T ->
+  rect_wf r -> gen_pos eps eta m r p q ->
+  (basic_visibility eps eta p q (rect_surface r) = false <-> blocked r p q).
+Proof. exact (fun He He1 Heta Hm => blocked_iff_rect eps eta m He He1 Heta Hm r p q). Qed.
+Print Assumptions C07_blocked_iff_rect.
+
+(** (10b) the room.  [rects_of surfs rs]: [rs] lists, patch by patch, a well-formed axis-aligned
+    rectangle whose [rect_surface] IS the patch surface (polygon and normal) of the composed model.
+    For two patches i < j whose centroids are in general position with respect to every patch
+    rectangle: the relation the energy exchange uses, [vis_sym (room_scene rm) i j], holds iff NO
+    patch rectangle blocks the segment between the two centroids. *)
+Theorem C07_room_visibility_geometric {T} {O : Ops T} {RL : RingLaws T} {OL : OrderLaws T}
+    {FL : FieldLaws T} {SL : SqrtLaws T} (rm : @room T) (rs : list (@rect T)) (m : T) (i j : nat) :
+  (0 <= rm_eps rm)%T -> (rm_eps rm < 1)%T -> (0 < rm_eta rm)%T -> (rm_eta rm <= m + m)%T ->
+  rects_of (rm_patch_surfs rm) rs ->
+  i < j -> j < rm_np rm ->
+  (forall r, In r rs ->
+     gen_pos (rm_eps rm) (rm_eta rm) m r (nthv (rm_centers rm) i) (nthv (rm_centers rm) j)) ->
+  (vis_sym (room_scene rm) i j = true <->
+   forall r, In r rs -> ~ blocked r (nthv (rm_centers rm) i) (nthv (rm_centers rm) j)).
+Proof.
+  exact (fun He He1 Heta Hm Hrs => room_visibility_geometric rm rs m He He1 Heta Hm Hrs i j).
+Qed.
+Print Assumptions C07_room_visibility_geometric.
+
+(** (10c) the rectangle hypothesis is a THEOREM for shoebox-like rooms.  [axis_walls rm]: every wall
+    lies in an axis plane and is at least one patch wide in both in-plane directions ([wall_ok], the
+    domain of C08) and its normal is + or - the unit vector of its flat axis.  Then every patch
+    surface of the composed model (tiling cell + inherited wall normal) is a well-formed axis-aligned
+    rectangle ... *)
+Theorem C07_room_patches_are_rects {T} {O : Ops T} {RL : RingLaws T} {OL : OrderLaws T}
+    {FL : FieldLaws T} {FlL : FloorLaws T} {SL : SqrtLaws T} (rm : @room T) :
+  axis_walls rm -> exists rs, rects_of (rm_patch_surfs rm) rs.
+Proof. exact (room_patches_are_rects rm). Qed.
+Print Assumptions C07_room_patches_are_rects.
+
+(** ... and (10b) holds for such rooms with no hypothesis on the patch surfaces *)
+Theorem C07_room_visibility_geometric_shoebox {T} {O : Ops T} {RL : RingLaws T} {OL : OrderLaws T}
+    {FL : FieldLaws T} {FlL : FloorLaws T} {SL : SqrtLaws T} (rm : @room T) (m : T) :
+  (0 <= rm_eps rm)%T -> (rm_eps rm < 1)%T -> (0 < rm_eta rm)%T -> (rm_eta rm <= m + m)%T ->
+  axis_walls rm ->
+  exists rs, rects_of (rm_patch_surfs rm) rs /\
+    forall i j, i < j -> j < rm_np rm ->
+      (forall r, In r rs ->
+         gen_pos (rm_eps rm) (rm_eta rm) m r (nthv (rm_centers rm) i) (nthv (rm_centers rm) j)) ->
+      (vis_sym (room_scene rm) i j = true <->
+       forall r, In r rs -> ~ blocked r (nthv (rm_centers rm) i) (nthv (rm_centers rm) j)).
+Proof. exact (room_visibility_geometric_shoebox rm m). Qed.
+Print Assumptions C07_room_visibility_geometric_shoebox.
+
+(** (10d) the clauses of [gen_pos] that concern a patch's OWN rectangle are theorems about the
+    centroid the model computes ([np.sum(points, axis=-2) / 4], [Vec3.centroid]): it lies exactly in
+    the plane of its rectangle, strictly inside it, and farther than m from its four edge lines
+    whenever both sides of the rectangle exceed 2 m ... *)
+Theorem C07_rect_own_centroid {T} {O : Ops T} {RL : RingLaws T} {OL : OrderLaws T} {FL : FieldLaws T}
+    {FlL : FloorLaws T} {SL : SqrtLaws T} (m : T) (r : rect) :
+  rect_wf r ->
+  (m + m < tabs (r_ub r - r_ua r))%T -> (m + m < tabs (r_vb r - r_va r))%T ->
+  pt_on m r (centroid (rect_pts r)) /\ in_rect r (centroid (rect_pts r)).
+Proof. exact (rect_own_centroid m r). Qed.
+Print Assumptions C07_rect_own_centroid.
+
+(** ... and centroid i of the composed room IS the centroid of the i-th patch rectangle *)
+Theorem C07_room_center_is_rect_centroid {T} {O : Ops T} {RL : RingLaws T} {OL : OrderLaws T}
+    {FL : FieldLaws T} {FlL : FloorLaws T} {SL : SqrtLaws T} (rm : @room T) (rs : list (@rect T)) (i : nat) :
+  rects_of (rm_patch_surfs rm) rs -> i < rm_np rm ->
+  nthv (rm_centers rm) i = centroid (rect_pts (nth i rs drect)).
+Proof. exact (fun Hrs => room_center_is_rect_centroid rm rs Hrs i). Qed.
+Print Assumptions C07_room_center_is_rect_centroid.
+
+(** (10e) consequences that need NO hypothesis on the other surfaces ([cell_margin m r]: both sides
+    of r exceed 2 m).  A patch never exchanges energy with a patch whose centroid is behind it
+    (behind patch i, or patch i behind patch j): the own surface blocks ... *)
+Theorem C07_room_behind_hidden {T} {O : Ops T} {RL : RingLaws T} {OL : OrderLaws T}
+    {FL : FieldLaws T} {FlL : FloorLaws T} {SL : SqrtLaws T} (rm : @room T) (rs : list (@rect T))
+    (m : T) (i j : nat) :
+  rects_of (rm_patch_surfs rm) rs ->
+  (0 <= rm_eps rm)%T -> (rm_eps rm < 1)%T -> (0 < rm_eta rm)%T -> (rm_eta rm <= m + m)%T ->
+  i < j -> j < rm_np rm ->
+  let ci := nthv (rm_centers rm) i in
+  let cj := nthv (rm_centers rm) j in
+  let ri := nth i rs drect in
+  let rj := nth j rs drect in
+  (cell_margin m ri -> (rm_eta rm < tabs (side_of (rect_surface ri) cj))%T ->
+   (vdot (s_nrm (rect_surface ri)) (vsub cj ci) < 0)%T -> vis_sym (room_scene rm) i j = false) /\
+  (cell_margin m rj -> (rm_eta rm < tabs (side_of (rect_surface rj) ci))%T ->
+   (vdot (s_nrm (rect_surface rj)) (vsub ci cj) < 0)%T -> vis_sym (room_scene rm) i j = false).
+Proof. exact (fun Hrs He He1 Heta Hm => room_behind_hidden rm rs Hrs m He He1 Heta Hm i j). Qed.
+Print Assumptions C07_room_behind_hidden.
+
+(** ... and two patches of the same wall never exchange energy: a centroid in the plane of patch i
+    (off its edge bands) is hidden by the coplanar branch *)
+Theorem C07_room_coplanar_hidden {T} {O : Ops T} {RL : RingLaws T} {OL : OrderLaws T}
+    {FL : FieldLaws T} {FlL : FloorLaws T} {SL : SqrtLaws T} (rm : @room T) (rs : list (@rect T))
+    (m : T) (i j : nat) :
+  rects_of (rm_patch_surfs rm) rs ->
+  (0 <= rm_eps rm)%T -> (rm_eps rm < 1)%T -> (0 < rm_eta rm)%T -> (rm_eta rm <= m + m)%T ->
+  i < j -> j < rm_np rm ->
+  let cj := nthv (rm_centers rm) j in
+  let ri := nth i rs drect in
+  cell_margin m ri -> on_plane (rect_surface ri) cj -> off_bands m ri cj ->
+  vis_sym (room_scene rm) i j = false.
+Proof. exact (fun Hrs He He1 Heta Hm => room_coplanar_hidden rm rs Hrs m He He1 Heta Hm i j). Qed.
+Print Assumptions C07_room_coplanar_hidden.
